@@ -376,7 +376,7 @@ def wicks(expr, rules: Rules = None, simplify_kronecker_deltas: bool = False):
         return S.Zero
 
     # break up any NO-objects, and evaluate commutators
-    expr = expr.doit(wicks=True).expand()
+    expr = _import_split_operators(expr.doit(wicks=True)).expand()
 
     if isinstance(expr, Add):
         return Add(*[wicks(term, rules=rules,
@@ -412,6 +412,22 @@ def wicks(expr, rules: Rules = None, simplify_kronecker_deltas: bool = False):
         raise TypeError(f"Rules needs to be of type {Rules}")
 
     return rules.apply(Expr(result)).sympy
+
+
+def _import_split_operators(expr):
+    """
+    Breaking up a normal ordered operator string that contains operators with
+    general indices, sympy splits each of these operators in an occupied and
+    a virtual contribution using plain sympy Dummies and KroneckerDeltas.
+    Replace them by the corresponding Index and KroneckerDelta objects.
+    """
+    from sympy import Dummy, KroneckerDelta as SympyKroneckerDelta
+
+    sub = {s: Index(s.name, **s.assumptions0) for s in expr.atoms(Dummy)
+           if not isinstance(s, Index)}
+    if sub:
+        expr = expr.xreplace(sub)
+    return expr.replace(SympyKroneckerDelta, KroneckerDelta)
 
 
 def _contract_operator_string(op_string: list) -> Add:
